@@ -414,6 +414,8 @@ MEASURED_INLINE = {
 #                                            (`re.Match.__getitem__` is defined as `group`)
 #   N2  `xs += e`  ->  `xs.extend(e)`      when every binding of local `xs` in the function is a freshly built list
 #                                            (`list.__iadd__` is `extend`: same iteration of `e`, same TypeError)
+#   N3  `yield from xs` (xs a plain local)  ->  `for v in xs: yield v`   (every consumer of the translated generators only
+#                                            iterates; no `send`/`throw`, and the value of the `yield from` is unused)
 _MATCH_CALLS = {"match", "search", "fullmatch"}
 
 
@@ -453,6 +455,16 @@ class _X4Normaliser(ast.NodeTransformer):
             return ast.copy_location(new, node)
         return node
 
+
+    def visit_Expr(self, node):
+        self.generic_visit(node)
+        if isinstance(node.value, ast.YieldFrom) and isinstance(node.value.value, ast.Name):                  # N3
+            self.n = getattr(self, "n", 0) + 1
+            v = f"__yv{self.n}"
+            loop = ast.For(target=ast.Name(id=v, ctx=ast.Store()), iter=node.value.value,
+                           body=[ast.Expr(value=ast.Yield(value=ast.Name(id=v, ctx=ast.Load())))], orelse=[], type_comment=None)
+            return ast.copy_location(loop, node)
+        return node
 
     def visit_AugAssign(self, node):
         self.generic_visit(node)
